@@ -260,8 +260,8 @@ pub fn run(tier: Tier, seed: u64) -> i32 {
 
     // part 1c (thorough): five operands, four operators, two operands with unary prefixes
     {
-        let nv = tier.pick(3, vals.len()) as u64;
-        let st = par_range("1c: chains of five operands over all 16^4 operator quadruples (plain, and with '-' on the second and '~' on the fourth operand) x valuations (3 in the quick tier, 12 in the thorough tier)", 65536 * nv, &deadline, |idx, st| {
+        let nv = vals.len() as u64; // all valuations in both tiers (a few seconds)
+        let st = par_range("1c: chains of five operands over all 16^4 operator quadruples (plain, and with '-' on the second and '~' on the fourth operand) x all 12 valuations", 65536 * nv, &deadline, |idx, st| {
             let o = idx % 65536;
             let ops = [BINOPS[(o % 16) as usize], BINOPS[(o / 16 % 16) as usize], BINOPS[(o / 256 % 16) as usize], BINOPS[(o / 4096) as usize]];
             let v = vals[(idx / 65536) as usize];
